@@ -102,10 +102,11 @@ SimNext ==
                          \E f \in Pick(IF fs = {} THEN Filters ELSE fs) : RecvProbe(f, id)
     [] k = "Resolve" -> \E e \in Pick(LocalEprs \cup {UnknownEpr}) : RecvResolve(e, id)
     [] k = "ResolveHit" -> \E s \in Pick(local) : RecvResolve(s.e, id)
-    [] k = "Dup" -> \E m \in Pick({m \in AllIn : m.id \in SeenIds}) : Duplicate(m)
+    [] k = "Dup" -> \E id2 \in Pick(SeenIds), m \in Pick(Shapes) : Duplicate([m EXCEPT !.id = id2])
     \* the same id on a message of a kind drawn first
     [] k = "DupSame" -> \E kind \in Pick(AnnKinds \cup {"Bye", "Probe", "Resolve"}) :
-                        \E m \in Pick({m \in AllIn : m.id \in SeenIds /\ m.kind = kind}) : Duplicate(m)
+                        \E id2 \in Pick(SeenIds), m \in Pick({x \in Shapes : x.kind = kind}) :
+                           Duplicate([m EXCEPT !.id = id2])
     [] k = "Echo" -> Echo
     [] k = "Publish" -> \E e \in Pick(PubOk), p \in Pick(Profiles) : Publish(e, p)
     [] k = "Unpublish" -> \E s \in Pick(local) : Unpublish(s.e)
